@@ -28,11 +28,11 @@ func prop(id, title string, rules []string, explain string, notDecided []string,
 
 func init() {
 	prop("C01", "Add/Sub/Mul/Quo/Abs/Neg/Round return the exactly rounded result",
-		[]string{"C01.R1", "C01.R2", "C01.R3", "C01.R4", "C01.R5", "C01.R6", "C20.R1", "C20.R2", "C09.R1", "C05.R4", "C17.R3", "C01.R7", "C10.R3", "C07.R9", "C02.R6"},
+		[]string{"C01.R1", "C01.R2", "C01.R3", "C01.R4", "C01.R5", "C01.R6", "C20.R1", "C20.R2", "C09.R1", "C05.R4", "C17.R3", "C01.R7", "C10.R3", "C07.R9", "C02.R6", "C01.R8", "C01.R9"},
 		"Decides the wiring of the rounding kernel for all inputs: the sign that reaches every rounding decision is the sign of the value being rounded; the half comparison is made on the division remainder and a non-zero remainder always raises Inexact or is folded into the coefficient (no lost remainder); single-rounding operations round at most once per path and never skip it; Precision 0 cannot reach the digit-discarding division; the eight decision functions have exactly their modes' truth tables (finite-domain evaluation) and every digit-dropping site consults them.",
 		[]string{"numeric equality with the once-rounded exact result (alignment, digit arithmetic, carries) — quantifies over coefficient values"})
 	prop("C02", "Condition flags describe exactly what happened to the result",
-		[]string{"C02.R1", "C02.R2", "C02.R3", "C02.R4", "C02.R5", "C01.R2", "C01.R7", "C02.R6"},
+		[]string{"C02.R1", "C02.R2", "C02.R3", "C02.R4", "C02.R5", "C01.R2", "C01.R7", "C02.R6", "C01.R8"},
 		"Decides: the flag set is closed (12 single bits; only | & &^ ^ on Condition values, so no 13th bit for any input); Inexact⇒Rounded, Overflow⇒Inexact and the Underflow guard hold by construction at every raise site; no Condition produced by a callee is dropped or clobbered outside a reasoned table; the division conditions sit under exactly their specification guards; a non-zero division remainder always raises Inexact.",
 		[]string{"\"Inexact iff the result differs from the exact one\" beyond the remainder rule; over-reporting of Rounded"})
 	prop("C03", "Traps turn raised conditions into errors and never change or hide results",
@@ -54,7 +54,7 @@ func init() {
 		[]string{"nothing numeric is needed for this property"},
 		"a Condition carrying a System* flag always becomes an error (C03.R1/R3), so such returns need not deliver a complete value", "math/big mod/ref table", "hand summaries of the unsafe helpers")
 	prop("C07", "Every finite result fits the context it was computed in",
-		[]string{"C07.R1", "C07.R2", "C07.R3", "C07.R4", "C07.R5", "C07.R6", "C01.R3", "C16.R5", "C07.R7", "C07.R8", "C07.R9"},
+		[]string{"C07.R1", "C07.R2", "C07.R3", "C07.R4", "C07.R5", "C07.R6", "C01.R3", "C16.R5", "C07.R7", "C07.R8", "C07.R9", "C01.R8"},
 		"Decides: in every rounding operation the value delivered by each return has passed a setExponent range check after its last coefficient/exponent write (or is a whole-value copy, a small constant, or a tabled exception with its invariant); rounding increments are renormalised through roundAddOne; signed inputs to coefficients are sign-normalised; Context.Reduce strips after rounding.",
 		[]string{"that Rounder.Round removes exactly NumDigits−Precision digits (digit arithmetic)"})
 	prop("C08", "Special values follow the decimal arithmetic rules in every operation",
@@ -107,7 +107,7 @@ func init() {
 		"Decides: no nil pointer reaches NumDigits' comparison on the >128-bit negative path; Decimal.Reduce's count reads the operand, never the destination; Context.Reduce strips after rounding and restores the operand's sign; NumDigits' positive and negative arms are mirror images over the same table entry and the table index is guarded.",
 		[]string{"that the table contents and the float estimate are right (numeric; initialisation code)"})
 	prop("C20", "Rounding modes bracket each other and rounding is monotone",
-		[]string{"C20.R1", "C20.R2", "C01.R1", "C01.R2", "C09.R1", "C20.R5", "C05.R4", "C01.R5", "C01.R6", "C02.R5", "C09.R5", "C10.R3", "C02.R6"},
+		[]string{"C20.R1", "C20.R2", "C01.R1", "C01.R2", "C09.R1", "C20.R5", "C05.R4", "C01.R5", "C01.R6", "C02.R5", "C09.R5", "C10.R3", "C02.R6", "C01.R9"},
 		"Decides the structural causes of bracketing/mirroring: exhaustive, distinct dispatch of the eight modes; each decision function has exactly its mode's truth table over neg × sign(half) (so floor/ceiling are complementary in neg, directed modes ignore half, half modes ignore neg); every caller hands the decision the true sign and a real half comparison; no digit-dropping path bypasses it; Sub is add with only y's sign flipped.",
 		[]string{"the relational inequalities between the eight results themselves; monotonicity and scaling laws (numeric)"})
 }
